@@ -250,6 +250,11 @@ def rel_close(a, b, rel):
     return True
 
 
+def mask_cols(obs, cols):
+    """The observation with the given period columns blanked."""
+    return dict(obs, vals=[[0 if i in cols else b for i, b in enumerate(row)] for row in obs['vals']])
+
+
 def all_finite(obs):
     return all(np.isfinite(unbits(x)) for row in obs['vals'] for x in row)
 
@@ -406,12 +411,17 @@ def classify(prog, call, n, lags, leads, F, P, twin_fn):
             and F['tag'] == 'IndexError' and P['tag'] == 'IndexError' and periods is not None
             and any(not 0 <= p + call['opts']['offset'] < n for p in periods)):
         # the template's solve() only `return`s on an error when error_control is 'raise'; with any other setting it
-        # goes on solving the later periods after an offset error, and the wrapper stores those values before raising
-        return ('solve-continues-after-offset-error', what)
+        # goes on solving the later periods after an offset error, and the wrapper stores those values before raising.
+        # Explained by that defect iff the two classes differ only in periods after the offending one.
+        first = min(p for p in periods if not 0 <= p + call['opts']['offset'] < n)
+        later = {p for p in periods if p > first}
+        if same_control(F, P) and values_agree(mask_cols(F, later), mask_cols(P, later), libm, iterated):
+            return ('solve-continues-after-offset-error', what)
     # explicit infeasible period: the compiled module refuses with its own error code
     if periods is not None and any(not feasible(p, n, lags, leads) for p in periods):
-        want = 'IndexError' if call['call'] == 'evaluate' else 'FortranEngineError'
-        if F['tag'] == want:
+        if call['call'] == 'evaluate' and F['tag'] == 'IndexError':
+            return ('infeasible-period-evaluate', what)
+        if call['call'] != 'evaluate' and F['tag'] == 'FortranEngineError':
             return ('infeasible-period-mismatch', what)
         # otherwise the call ended earlier for another reason: judged by the rules below
     if iterated and call['opts']['max_iter'] <= 0 and call['opts']['min_iter'] <= call['opts']['max_iter']:
@@ -781,6 +791,9 @@ def process_program(job):
             else:
                 count('differs:' + verdict[0])
                 out['violations'].append({'key': verdict[0], 'what': verdict[1], 'case': case})
+            if os.environ.get('C07_DUMP_OBS'):   # self-test aid: what the Fortran class did on every call
+                out.setdefault('fobs', []).append((json.dumps([prog['script'], call], sort_keys=True), obs_str(Fo),
+                                                   obs_str(Po), None if verdict is None else verdict[0]))
             nontrivial = Fo['tag'] not in ('ValueError', 'KeyError') and verdict != ('skip', 'non-finite')
             out['cases'].append((json.dumps([prog['script'], data, call], sort_keys=True), nontrivial))
             in_span = call['call'] != 'solve_t' or -n <= call['t'] < n   # the models assume -n <= t < n for solve_t
@@ -884,6 +897,8 @@ def run(ctx, rep):
             rep.violate(v['key'], v['what'], v['case'])
         for key, nontrivial in out['cases']:
             rep.case(key, nontrivial=nontrivial)
+        if out.get('fobs'):
+            rep.__dict__.setdefault('fobs', []).extend(out['fobs'])
         if out['text'] is not None:
             text_reqs.append(out['text'])
         model_reqs += out['model']
